@@ -1,6 +1,7 @@
 package main
 
 import (
+	"verif/harness/internal/c16"
 	"verif/harness/internal/c08"
 	"verif/harness/internal/c04"
 	"verif/harness/internal/c03"
@@ -18,6 +19,8 @@ import (
 )
 
 func init() {
+	checks["C16"] = c16.Run
+	workers["c16"] = c16.Worker
 	checks["C08"] = c08.Run
 	workers["c08"] = c08.Worker
 	checks["C04"] = c04.Run
